@@ -279,6 +279,9 @@ func TestHarness(t *testing.T) {
 			f.Expected, f.Actual = r.expected, r.actual
 		}
 		f.Sig = hx.Sig("C19", "nfsreplay", strings.Join(min, ";"))
+		if r.joinClass {
+			f.Sig = knownInflightSig
+		}
 		res.Report(f)
 	}
 
@@ -292,9 +295,6 @@ func TestHarness(t *testing.T) {
 		account(&out)
 		if out.monitor != "" || out.mismatch != "" {
 			report(f.History, out)
-		} else if out.known != "" {
-			res.Report(hx.Finding{Kind: "violation", Property: "C19", History: f.History, What: out.known,
-				Name: "C19 monitor: false_retry, in-flight case", Sig: knownInflightSig})
 		}
 		res.ModelLines = drv.Lines
 		res.Write(o)
@@ -302,27 +302,7 @@ func TestHarness(t *testing.T) {
 	}
 
 	mismatches, violations := 0, 0
-	knownReported := false
 	handle := func(ops []string, out outcome) {
-		if out.known != "" {
-			res.Count("known-inflight-join-ignores-content")
-			if !knownReported && out.monitor == "" {
-				knownReported = true
-				min := hx.Shrink(ops, func(cand []string) bool {
-					if len(cand) == 0 || cand[0] != ops[0] {
-						return false
-					}
-					return runHistory(t, cand, drv, nil, 0).known != ""
-				})
-				r := runHistory(t, min, drv, nil, 0)
-				if r.known == "" {
-					min, r = ops, out
-				}
-				res.Report(hx.Finding{Kind: "violation", Property: "C19", History: min, What: r.known,
-					Name: "C19 monitor: a request whose content differs from the original is never answered with the original's reply (false_retry, in-flight case)",
-					Sig:  knownInflightSig})
-			}
-		}
 		switch {
 		case out.monitor != "" && violations < 3:
 			violations++
